@@ -9,6 +9,7 @@
  * The self-test bodies are replaced through --wrap by stubs with a configurable verdict. */
 #include "common.h"
 #include <pthread.h>
+#include <signal.h>
 #include <sched.h>
 #include <ucontext.h>
 #include <unistd.h>
@@ -54,6 +55,8 @@ int __wrap_usleep(useconds_t us)
 static clockid_t cpu_clock_of[MAXPOOL]; static volatile double cpu_at_call[MAXPOOL];
 static volatile int in_call[MAXPOOL]; static volatile int active_n;
 static __thread int my_id = -1;
+static pthread_t pool_thread[MAXPOOL]; static volatile uint64_t signals_sent;
+static void on_usr1(int sig) { (void) sig; }
 static volatile int stalling;           /* a deliberate stall is in progress: the stuck-thread detector waits for it to end */
 static double thread_cpu(int i) { struct timespec ts; if (clock_gettime(cpu_clock_of[i], &ts)) return 1e18; return (double) ts.tv_sec + (double) ts.tv_nsec * 1e-9; }
 static void long_stall(void)
@@ -65,6 +68,9 @@ static void long_stall(void)
                 __real_usleep(50000);
                 clock_gettime(CLOCK_MONOTONIC, &w1);
                 double wall = (double) (w1.tv_sec - w0.tv_sec) + (double) (w1.tv_nsec - w0.tv_nsec) * 1e-9;
+                if (g_noarch) {         /* signals arrive while the waiters sleep in usleep(): an interrupted sleep is not a verdict */
+                        for (int i = 0; i < active_n; i++) if (i != my_id && in_call[i]) { pthread_kill(pool_thread[i], SIGUSR1); signals_sent++; }
+                }
                 if (wall < want) continue;
                 if (g_noarch || wall >= 10 * want) break;
                 int any = 0, ok = 1;
@@ -307,7 +313,7 @@ static volatile int rc_of[MAXPOOL]; static volatile uint64_t rclk_of[MAXPOOL];
 static void *stress_thread(void *arg)
 {
         int me = (int) (intptr_t) arg;
-        my_id = me; pthread_getcpuclockid(pthread_self(), &cpu_clock_of[me]);
+        my_id = me; pool_thread[me] = pthread_self(); pthread_getcpuclockid(pthread_self(), &cpu_clock_of[me]);
         for (;;) {
                 sbar_wait(&bar_go);
                 if (stop_all) return NULL;
@@ -325,6 +331,7 @@ static void *stress_thread(void *arg)
 static void mode_stress(void)
 {
         pthread_t th[MAXPOOL];
+        { struct sigaction sa; memset(&sa, 0, sizeof sa); sa.sa_handler = on_usr1; sigemptyset(&sa.sa_mask); sigaction(SIGUSR1, &sa, NULL); }
         POOL = (int) arg_int("--pool", 8);
         if (POOL > MAXPOOL) POOL = MAXPOOL;
         bar_go.parties = bar_done.parties = POOL + 1;
@@ -396,6 +403,7 @@ static void mode_stress(void)
                 out_max("max_threads_in_round", (uint64_t) active_n);
                 feat(mix64(0x57e, mix64((uint64_t) active_n, (uint64_t) verdict_fail * 2 + (uint64_t) (stub_spin > 400))));
         }
+        if (signals_sent) out_count("signals_delivered_to_waiting_threads", signals_sent);
         stop_all = 1;
         sbar_wait(&bar_go);
         for (int i = 0; i < POOL; i++) pthread_join(th[i], NULL);
